@@ -1356,6 +1356,9 @@ impl<T: Payload> World<T> {
         if maxdepth >= 256 {
             self.stats.probe("scale_depth_ge_256");
         }
+        if maxdepth >= 1025 {
+            self.stats.probe("scale_depth_ge_1025");
+        }
         if maxchain >= 32 {
             self.stats.probe("scale_toplevel_chain_ge_32");
         }
